@@ -3,7 +3,8 @@
 cd "$(dirname "$0")/.."
 OUT=seeded/MATRIX_rebased.txt
 : > $OUT.tmp
-for n in C06-m1 C08-m2 C09-m1 C11-m1 C11-m3 C13-m8 C15-m4 C15-m5 C15-m6 C16-m4 C20-m5; do
+for n in ${MUTS:-C06-m1 C08-m2 C09-m1 C11-m1 C11-m3 C13-m1 C13-m4 C13-m8 C15-m1 C15-m4 C15-m5 C15-m6 C16-m4 C20-m5}; do
+  [ -n "$MUTS" ] && OUT=seeded/MATRIX_rebased_more.txt
   id=${n%%-*}
   python3 lib/mutants.py run $n $id 2>&1 | grep -v KNOWN | cut -c1-240 >> $OUT.tmp
 done
